@@ -27,10 +27,10 @@ def history (c : Json) : P Json := do
   for st in steps do
     let obsJ ← asArr (← field st "obs")
     let obs := (← obsJ.mapM asObs).toArray
-    let op ← toOp (← field st "m") obs
+    let ops ← toOps (← field st "m") obs
     -- fingerprint() calls observed at this step are answered by the model *before* the memo update of this step
     -- for the op's own target, and after it for the rest; both are equal by C16.fresh_equal. We read after.
-    h := Heap.step fpOf h op
+    h := ops.foldl (Heap.step fpOf) h
     for f in (← asArr (fieldD st "fps" (Json.arr #[]))) do
       let slot ← natF f "slot"
       let got ← intF f "fp"
